@@ -420,6 +420,7 @@ func runSys(work, prop string) {
 		}
 	}
 	sysRealSockets(e)
+	argsDuringHandler(e)
 	e.Res.Rule = "end-to-end: real Conn and real Server over a byte pipe delivering arbitrary chunks (all at once / 1-3 bytes / <=70 bytes / <=70000 bytes) through the real socket.Messages framing; header encoders default/pb/code/json; client pipelining/directIO, server pipelining/directIO; buffer sizes 0/512/64K/1M; 1-6 concurrent callers using Call/Go/RoundTrip; payloads 0..300000 bytes around the 64K boundaries; handlers finish out of order; every reply compared with the reply computed from the call's own arguments; plus real unix/tcp sockets; the chunkings seen on the wire are replayed on the Coq framing model; non-trivial = distinct (encoder, modes, chunk mode, payload class)"
 	names := writeCases(work, "From RPC Require Import RunWire.", "wcase", cases, 8)
 	e.Res.ModelCases = len(cases)
